@@ -16,7 +16,7 @@ import yanggen
 from lyxlib import (Script, results, rc, payload, PRINT_SIBLINGS, PRINT_SHRINK, PRINT_KEEPEMPTY, WD_EXPLICIT, WD_ALL, WD_TRIM)
 from props.comps import Comp
 from props.comps_tree import tree_case, stage1, pseudo
-from vlib import hexs
+from vlib import hexs, unhex
 
 
 def emptyize(m, rng, prob=0.4):
@@ -119,13 +119,46 @@ class DocModel(Comp):
             if a == b:
                 continue
             pa, pb = a.split(" "), b.split(" ")
-            if pa[0] != pb[0] or pa[1] != pb[1]:
-                return None                      # different bytes: a real correspondence failure
+            if pa[0] != pb[0] or len(pa) < 2 or len(pb) < 2:
+                return None
+            if pa[1] != pb[1]:
+                # different bytes: does libyang's document MEAN something else than the model's (which the theorems are
+                # about)? Then the property itself fails on this input, not only the correspondence
+                w = self.meaning_differs(pa[0][0], unhex(pa[1]), unhex(pb[1]))
+                return (None, "option set %s: %s" % (pa[0], w)) if w else None
             bad.append(pa[0])
         if bad and all(x == "j%d" % (BASE | WD_TRIM) for x in bad):
             return ("json-trim-leaflist-meta", "JSON printed in with-defaults trim mode does not parse back to the trimmed "
                     "tree: metadata array of a leaf-list misaligned / misplaced")
         return None
+
+
+def _meaning_differs(fmt, model, impl):
+    """independent readers (expat / json) on the model's and on libyang's document"""
+    import json
+    import xml.parsers.expat
+    if fmt == "x":
+        try:
+            a = oracles.expat_events(model)
+        except xml.parsers.expat.ExpatError:
+            return None
+        try:
+            b = oracles.expat_events(impl)
+        except xml.parsers.expat.ExpatError as e:
+            return "libyang's XML is not well-formed (%s): %r" % (e, impl[:300])
+        return None if a == b else "libyang's XML reads differently from the model's: %r vs %r" % (impl[:300], model[:300])
+    try:
+        a = json.loads(model.decode("utf-8"), object_pairs_hook=list)
+    except (ValueError, UnicodeDecodeError):
+        return None
+    try:
+        b = json.loads(impl.decode("utf-8"), object_pairs_hook=list)
+    except (ValueError, UnicodeDecodeError) as e:
+        return "libyang's JSON is not RFC 8259 JSON (%s): %r" % (e, impl[:300])
+    return None if a == b else "libyang's JSON reads differently from the RFC 7951 rendering: %r vs %r" % (impl[:300], model[:300])
+
+
+DocModel.meaning_differs = staticmethod(_meaning_differs)
 
 
 # ------------------------------------------------------------------------------------------------
@@ -847,7 +880,7 @@ class WellFormedX(Oracle):
                     json.loads(data.decode("utf-8"))
                 except (ValueError, UnicodeDecodeError) as e:
                     tag = None
-                    if fam in ("opaq-xml",) and b",," in data:
+                    if fam in ("opaq-xml",) and (b",," in data or b":," in data):
                         tag = "json-opaq-mixed-array"
                     elif fam.startswith("any-"):
                         tag = "json-anydata-nested-same-list"
